@@ -45,6 +45,7 @@ type scRebal struct {
 	baseScn
 	prop    string
 	closeAt int
+	quiet   bool // C13r: Close() arrives when every earlier notification has run its course
 }
 
 func init() {
@@ -104,6 +105,10 @@ func (s *scRebal) Configure(w *World) {
 		c.W.AckStale, c.W.AckSkip, c.W.API = 3, 4, 1
 	case "C13r":
 		s.closeAt = 30 + t.Draw(c.MaxSteps-30, nil)
+		if s.quiet = t.Draw(3, nil) == 0; s.quiet {
+			c.Extra["quiet-close"] = "1"
+			s.closeAt = 30 + (s.closeAt-30)/2 // leave steps for the clock to pass the last notification's rebalance
+		}
 		c.RM = t.Draw(2, nil) == 0
 		c.QuiesceBudget += 100 * time.Second
 	case "C16r":
@@ -146,6 +151,7 @@ func (s *scRebal) notify(w *World, m *Member, n, t int, viaAPI bool) {
 	w.mu.Lock()
 	m.notifInFlight++
 	m.notifCount++
+	m.lastNotifT = time.Duration(w.now())
 	w.mu.Unlock()
 	done := func() { w.mu.Lock(); m.notifInFlight--; w.mu.Unlock() }
 	if viaAPI {
@@ -158,16 +164,28 @@ func (s *scRebal) notify(w *World, m *Member, n, t int, viaAPI bool) {
 func (s *scRebal) MemberActions(w *World, m *Member) []Action {
 	c := w.cfg
 	var acts []Action
-	if !m.ready || m.stopped || m.closing {
+	if !m.ready || m.stopped || m.closing && s.prop != "C13r" {
 		return nil
 	}
 	id := fmt.Sprintf("m%d", m.id)
 	wt := c.W.Publish
 	w.mu.Lock()
+	if m.closing {
+		wt *= 4 // the discovery monitor and the API keep notifying while the shutdown runs
+	} else if s.quiet && w.step >= s.closeAt {
+		wt = 0
+	}
+	settled := m.phase == "open" && m.notifInFlight == 0 && time.Duration(w.now()) > m.lastNotifT+2*c.RebalanceDelay+2*time.Second
 	if m.phase != "open" {
 		wt *= 3 // place notifications inside the close / delay / reopen windows
 	}
-	if m.notifInFlight >= 2 || m.notifCount >= 14 {
+	budget := 14
+	if m.closing {
+		budget = m.notifAtClose + 4
+	} else {
+		m.notifAtClose = m.notifCount
+	}
+	if m.notifInFlight >= 2 || m.notifCount >= budget {
 		wt = 0 // at most two publishers at a time (the API and the discovery monitor), a bounded number per run
 	}
 	w.mu.Unlock()
@@ -186,9 +204,13 @@ func (s *scRebal) MemberActions(w *World, m *Member) []Action {
 		w.mu.Lock()
 		m.notifInFlight++
 		m.notifCount++
+		m.lastNotifT = time.Duration(w.now())
 		w.mu.Unlock()
 		m.apiCallThen("GET", "/rebalance", "", func() { w.mu.Lock(); m.notifInFlight--; w.mu.Unlock() })
 	}})
+	if m.closing {
+		return acts
+	}
 	closeW := 0
 	if s.closeAt > 0 && w.step >= s.closeAt {
 		closeW = 2
@@ -197,6 +219,12 @@ func (s *scRebal) MemberActions(w *World, m *Member) []Action {
 			closeW = 30
 		}
 		w.mu.Unlock()
+		if s.quiet {
+			closeW = 0
+			if settled {
+				closeW = 10
+			}
+		}
 	}
 	acts = append(acts, Action{ID: "close|" + id, W: closeW, Do: func() { w.closeMember(m) }})
 	if !m.scraping {
